@@ -124,6 +124,41 @@ Section Compose.
     - exists w, u, e, b, d, tt. split; [exact Ic|]. split; [exact Ir|]. split; [exact K|].
       rewrite E in Hh. apply (hit_iff parse) in Hh. exact Hh.
   Qed.
+  (* a Get that opens the key after the rename of a Set for that key does not miss:
+     it answers what the sequential model answers for the bundle of that Set or of
+     one that renamed later (before the open) *)
+  Theorem get_concurrent_fresh : forall tr1 tr2 tr3 w r u s,
+    let tr := (tr1 ++ M14.ERename w :: tr2 ++ M14.EOpen r u :: tr3)%list in
+    forallb M14.safe tr = true -> M14.exec sha14 M14.init tr = Some s -> sets_only tr ->
+    forall wr, M14.getN w (M14.s_w s) = Some wr -> M14.key sha14 (M14.w_url wr) = M14.key sha14 u ->
+    forall rr res t, M14.getN r (M14.s_r s) = Some rr -> M14.r_st rr = M14.RDone res ->
+      exists w' wr' e b d,
+        M14.getN w' (M14.s_w s) = Some wr' /\ (w' = w \/ In (M14.ERename w') tr2) /\
+        M14.key sha14 (M14.w_url wr') = M14.key sha14 u /\
+        M14.w_content wr' = M14.dat_of (enc e b d) /\
+        cget res t = get_entry parse b (norm d) t /\ cget res t <> RMiss 0.
+  Proof.
+    intros tr1 tr2 tr3 w r u s tr S H En wr Gw K rr res t Gr R.
+    destruct (C14_Proofs.fresh_thm sha14 _ _ _ _ _ _ _ S H _ Gw K _ _ Gr R)
+      as [w' [wr' [G' [_ [E [K' O]]]]]].
+    destruct (C14_Proofs.read_thm sha14 _ _ S H _ _ _ Gr R)
+      as [_ [Hm|[w1 [wr1 [tt [G1 [E1 [K1 [Ic Ir]]]]]]]]].
+    - rewrite Hm in E. discriminate.
+    - destruct (En _ _ _ _ Ic) as [e [b [d [Ec Ed]]]].
+      assert (C : M14.w_content wr' = M14.w_content wr1).
+      { rewrite E in E1. inversion E1. reflexivity. }
+      assert (Q : cget res t = get_entry parse b (norm d) t).
+      { rewrite E. cbn [cget]. rewrite C, Ec, str_dat, Ed. reflexivity. }
+      exists w', wr', e, b, d. split; [exact G'|]. split; [exact O|]. split; [exact K'|].
+      split; [rewrite C; exact Ec|]. split; [exact Q|].
+      rewrite Q. unfold get_entry, check_expiry.
+      destruct (parse b) as [|rb nb]; [discriminate|].
+      destruct (norm d) as [dd|].
+      + destruct (parse dd) as [|rd nd]; [discriminate|].
+        destruct nb as [n|]; [|discriminate]. destruct (t >? n)%Z; [discriminate|].
+        destruct nd as [m|]; [|discriminate]. destruct (t >? m)%Z; discriminate.
+      + destruct nb as [n|]; [|discriminate]. destruct (t >? n)%Z; discriminate.
+  Qed.
 End Compose.
 
 (* non-vacuity: a run with two writers for one URL and a reader between their
